@@ -16,7 +16,7 @@ package erpc
 // input/output are the context's own two distinct messages, assigned once
 //@ writes (*handlerCtx).input only-in newReadHandleCtx @C20
 //@ writes (*handlerCtx).output only-in newReadHandleCtx @C20
-//@ spec fn ctxShape(c *handlerCtx) bool = istype(c.input, type(*socket.message)) && istype(c.output, type(*socket.message)) && dyn(c.input) != dyn(c.output) && as(c.input, type(*socket.message)).meta != as(c.output, type(*socket.message)).meta && as(c.input, type(*socket.message)).xferPipe != as(c.output, type(*socket.message)).xferPipe && as(c.input, type(*socket.message)).meta != nil && as(c.input, type(*socket.message)).xferPipe != nil && as(c.output, type(*socket.message)).meta != nil && as(c.output, type(*socket.message)).xferPipe != nil
+//@ spec fn ctxShape(c *handlerCtx) bool = istype(c.input, type(*socket.message)) && istype(c.output, type(*socket.message)) && as(c.input, type(*socket.message)) != nil && as(c.output, type(*socket.message)) != nil && dyn(c.input) != dyn(c.output) && as(c.input, type(*socket.message)).meta != as(c.output, type(*socket.message)).meta && as(c.input, type(*socket.message)).xferPipe != as(c.output, type(*socket.message)).xferPipe && as(c.input, type(*socket.message)).meta != nil && as(c.input, type(*socket.message)).xferPipe != nil && as(c.output, type(*socket.message)).meta != nil && as(c.output, type(*socket.message)).xferPipe != nil
 
 // emptyValue = reflect.Value{} is never assigned: it is the zero Value
 //@ zeroglobal emptyValue @C20
@@ -94,16 +94,19 @@ package erpc
 //@   ensures[ok-reply-untouched] @C04 statOK(stat) ==> mo.status == old(mo.status) && mo.body == old(mo.body) && mo.bodyCodec == old(mo.bodyCodec)
 //@   ensures[service-method-restored] mo.serviceMethod == old(mo.serviceMethod)
 
+//@ frameset ctxRun(c *handlerCtx) = fields(c), allof(type(socket.message)), allof(type(utils.Args)), allelems(type(utils.argsKV)), allof(type(xfer.XferPipe)), allelems(type(xfer.XferFilter)), allelems(type(byte)), lockset, waitgroups, ghost.trace, ghost.vetoed, ghost.handlerCalls
 //@ func (*handlerCtx).handleCall
 //@   property C12 C09 C03
-//@   flags recover-scope
-//@   requires @C03 sentinelsIntact() && (c.handler == nil ==> !statOK(c.stat))
+//@   flags recover-scope libframe
+//@   modifies ctxRun(c), ghost.writeAttempts, ghost.writesOK, ghost.lastWriteOK, ghost.callRuns, as(c.output, type(*socket.message)).xferPipe.#inheritedFrom
+//@   requires @C03 sentinelsIntact()
 //@   ensures[handler-at-most-once]! @C03 ghost.handlerCalls <= old(ghost.handlerCalls) + 1
 //@   ensures[replied-at-most-once]! @C03 ghost.writesOK <= old(ghost.writesOK) + 1
 //@   ensures[replied-unless-write-failed]! @C03 ghost.writesOK == old(ghost.writesOK) + 1 || !ghost.lastWriteOK
 //@   ensures[reply-attempted]! @C03 ghost.writeAttempts >= old(ghost.writeAttempts) + 1
+//@   ghostset ghost.callRuns = old(ghost.callRuns) + 1
 //@   requires ctxShape(c) && c.sess != nil
-//@   requires @C09 c.pluginContainer != nil && (c.handler != nil ==> c.pluginContainer == c.handler.pluginContainer)
+//@   requires @C09 c.handler != nil ==> c.pluginContainer == c.handler.pluginContainer && c.pluginContainer != nil
 
 // ---- user code (handlers, plugins) --------------------------------------------
 // Handlers and plugin hooks act on a context only through its public interface:
@@ -464,27 +467,42 @@ package erpc
 //@ ghost global preWritePushRuns int
 
 //@ func (*handlerCtx).bindPush
-//@   property C09
+//@   property C09 C03
+//@   flags libframe
+//@   modifies c.stat, c.handler, c.pluginContainer, c.arg, userCtx(c), ghost.trace, ghost.vetoed, lockset
 //@   requires sentinelsIntact() && c.handler == nil
+//@   requires @C03 ctxShape(c)
+//@   ensures[no-route-no-ok] @C03 c.handler == nil ==> !statOK(c.stat)
+//@   ensures[container-kept-or-route] @C03 c.pluginContainer != nil
 //@   requires c.sess != nil && c.sess.peer != nil && c.pluginContainer == c.sess.peer.pluginContainer && c.pluginContainer != nil
-//@   ensures[route-container] c.handler != nil && statOK(c.stat) ==> c.pluginContainer == c.handler.pluginContainer
+//@   ensures[route-container] c.handler != nil ==> c.pluginContainer == c.handler.pluginContainer
 //@ func (*handlerCtx).bindCall
-//@   property C09
+//@   property C09 C03
+//@   flags libframe
+//@   modifies c.stat, c.handler, c.pluginContainer, c.arg, userCtx(c), ghost.trace, ghost.vetoed, lockset
 //@   requires sentinelsIntact() && c.handler == nil
+//@   requires @C03 ctxShape(c)
+//@   ensures[no-route-no-ok] @C03 c.handler == nil ==> !statOK(c.stat)
+//@   ensures[container-kept-or-route] @C03 c.pluginContainer != nil
 //@   requires c.sess != nil && c.sess.peer != nil && c.pluginContainer == c.sess.peer.pluginContainer && c.pluginContainer != nil
-//@   ensures[route-container] c.handler != nil && statOK(c.stat) ==> c.pluginContainer == c.handler.pluginContainer
+//@   ensures[route-container] c.handler != nil ==> c.pluginContainer == c.handler.pluginContainer
 //@ func (*handlerCtx).handlePush
 //@   property C09 C03
-//@   flags recover-scope
-//@   requires @C03 c.handler == nil ==> !statOK(c.stat)
+//@   flags recover-scope libframe
+//@   modifies ctxRun(c), ghost.pushRuns
 //@   ensures[handler-at-most-once]! @C03 ghost.handlerCalls <= old(ghost.handlerCalls) + 1
 //@   ensures[push-never-replies]! @C03 ghost.writeAttempts == old(ghost.writeAttempts)
-//@   requires ctxShape(c) && c.sess != nil && (c.handler != nil && statOK(c.stat) ==> c.pluginContainer == c.handler.pluginContainer)
+//@   ghostset ghost.pushRuns = old(ghost.pushRuns) + 1
+//@   requires ctxShape(c) && c.sess != nil && (c.handler != nil ==> c.pluginContainer == c.handler.pluginContainer && c.pluginContainer != nil)
 
 // route lookup through the session's handler getters (method values of the
 // router's getCall/getPush, see C10): read-only
+// (the routing tables hold only handlers built by the handler makers, which
+// always attach the registering router's plugin container: assumption)
 //@ iface dynamic:func(serviceMethodPath string) (*erpc.Handler, bool)
-//@   flags pure
+//@   modifies nothing
+//@   ensures[table-entries-wellformed] result.1 ==> result.0 != nil && result.0.pluginContainer != nil
+//@   ensures[not-found-is-nil] !result.1 ==> result.0 == nil
 
 
 //@ func (*session).AsyncCall
@@ -636,14 +654,88 @@ package erpc
 //@   flags libframe
 //@   modifies allof(type(session)), allof(type(socket.socket)), allof(type(callCmd)), lockset, waitgroups
 //@   ghostset ghost.disconnectRuns = old(ghost.disconnectRuns) + 1
+// the goroutine pool: a function it accepts runs exactly once, later, on another
+// goroutine; a refused function never runs (assumption about goutil/pool)
+//@ ghost global handleScheduled int
 //@ trusted Go
+//@   flags libframe spawns
+//@   modifies ghost.handleScheduled
+//@   ghostset ghost.handleScheduled = old(ghost.handleScheduled) + (result ? 1 : 0)
+
+// ---- C03: the reader hands every frame it accepts to exactly one handle() --------
+// ghost.framesRead counts returns of socket.ReadMessage (socket package);
+// ghost.handleRuns counts runs of handle() on the reading goroutine itself.
+//@ ghost global handleRuns int
+//@ ghost global callRuns int
+//@ ghost global pushRuns int
+//@ ghost global replyRuns int
+//@ ghost global closeRequests int
+
+// what the body-binding callback (handlerCtx.binding, installed as the input
+// message's NewBodyFunc) leaves behind, per frame type
+//@ spec fn boundCtx(c *handlerCtx) bool = c.handler != nil ==> c.pluginContainer == c.handler.pluginContainer && c.pluginContainer != nil
+
+//@ func (*handlerCtx).binding
+//@   property C03
+//@   requires sentinelsIntact() && ctxShape(c) && c.handler == nil && c.callCmd == nil
+//@   requires c.sess != nil && c.sess.peer != nil && c.sess.peer.pluginContainer != nil && dyn(header) == dyn(c.input)
+//@   ensures[bound] boundCtx(c)
+//@   ensures[unsupported-type-marked] as(c.input, type(*socket.message)).mtype != TypeCall && as(c.input, type(*socket.message)).mtype != TypePush && as(c.input, type(*socket.message)).mtype != TypeReply ==> notAllowed(c.stat)
+
+// The reader's view of socket.ReadMessage(ctx.input): the protocol decodes the
+// frame into ctx.input and, through the message's NewBodyFunc (= ctx.binding,
+// installed by newReadHandleCtx), binds the context at most once. What binding
+// leaves behind is its verified postcondition; a frame whose body is never
+// unmarshalled leaves the context as getContext made it. (The link from
+// Proto.Unpack to NewBodyFunc is the assumption here, listed in the evidence.)
+//@ trusted socket.(*socket).ReadMessage in erpc.(*session).startReadAndHandle
+//@   flags libframe may-panic
+//@   modifies msgAll(as(message, type(*socket.message))), lockset, ghost.appendFailed, ghost.maxAlloc, ghost.framesRead, ghost.trace, ghost.vetoed, ctx.start, ctx.pluginContainer, ctx.stat, ctx.handler, ctx.arg, ctx.callCmd, ctx.swap, ctx.context, allof(type(callCmd))
+//@   ghostset ghost.framesRead = old(ghost.framesRead) + 1
+//@   ensures[bound-or-untouched] boundCtx(ctx)
+//@   ensures[binding-keeps-shape] ctx.sess == old(ctx.sess) && ctxShape(ctx)
+
+//@ frameset handleRun(c *handlerCtx) = ctxRun(c), allof(type(callCmd)), ghost.writeAttempts, ghost.writesOK, ghost.lastWriteOK, ghost.callRuns, ghost.pushRuns, ghost.replyRuns, ghost.closeRequests, ghost.handleRuns
+//@ func (*session).startReadAndHandle$2
+//@   property C03
 //@   flags libframe
+//@   modifies handleRun(ctx), as(ctx.output, type(*socket.message)).xferPipe.#inheritedFrom
+//@   requires sentinelsIntact() && ctx != nil && ctxShape(ctx) && ctx.sess != nil && ctx.sess.peer != nil
+//@   requires boundCtx(ctx)
+//@   ensures[handled-once] ghost.handleRuns == old(ghost.handleRuns) + 1
+
+//@ func (*handlerCtx).handle
+//@   property C03
+//@   flags libframe
+//@   modifies handleRun(c), as(c.output, type(*socket.message)).xferPipe.#inheritedFrom
+//@   requires sentinelsIntact() && ctxShape(c) && c.sess != nil && c.sess.peer != nil
+//@   requires boundCtx(c)
+//@   let mi = as(c.input, type(*socket.message))
+//@   ghostset ghost.handleRuns = old(ghost.handleRuns) + 1
+//@   ensures[call-handled-once] old(mi.mtype) == TypeCall && !old(notAllowed(c.stat)) ==> ghost.callRuns == old(ghost.callRuns) + 1 && ghost.pushRuns == old(ghost.pushRuns) && ghost.replyRuns == old(ghost.replyRuns) && ghost.closeRequests == old(ghost.closeRequests)
+//@   ensures[push-handled-once] old(mi.mtype) == TypePush && !old(notAllowed(c.stat)) ==> ghost.pushRuns == old(ghost.pushRuns) + 1 && ghost.callRuns == old(ghost.callRuns) && ghost.replyRuns == old(ghost.replyRuns) && ghost.closeRequests == old(ghost.closeRequests) && ghost.writeAttempts == old(ghost.writeAttempts)
+//@   ensures[reply-handled-once] old(mi.mtype) == TypeReply && !old(notAllowed(c.stat)) ==> ghost.replyRuns == old(ghost.replyRuns) + 1 && ghost.callRuns == old(ghost.callRuns) && ghost.pushRuns == old(ghost.pushRuns) && ghost.closeRequests == old(ghost.closeRequests) && ghost.writeAttempts == old(ghost.writeAttempts)
+//@   ensures[unsupported-type-disconnects] old(notAllowed(c.stat)) || (old(mi.mtype) != TypeCall && old(mi.mtype) != TypePush && old(mi.mtype) != TypeReply) ==> ghost.closeRequests == old(ghost.closeRequests) + 1 && ghost.callRuns == old(ghost.callRuns) && ghost.pushRuns == old(ghost.pushRuns) && ghost.replyRuns == old(ghost.replyRuns) && ghost.writeAttempts == old(ghost.writeAttempts) && ghost.handlerCalls == old(ghost.handlerCalls)
+
+//@ func (*handlerCtx).handleReply
+//@   property C02
+//@   flags recover-scope libframe
+//@   modifies ctxRun(c), allof(type(callCmd)), ghost.replyRuns
+//@   ghostset ghost.replyRuns = old(ghost.replyRuns) + 1
+
+// closing the session is requested by starting Close on its own goroutine
+//@ trusted (*session).Close
+//@   flags libframe
+//@   spawnset ghost.closeRequests = old(ghost.closeRequests) + 1
+
 //@ func (*session).startReadAndHandle
-//@   property C06
+//@   property C06 C03
 //@   flags recover-scope
-//@   requires s.peer != nil && s.socket != nil && s.peer.pluginContainer != nil
+//@   requires s.peer != nil && s.socket != nil && as(s.socket, type(*socket.socket)) != nil && s.peer.pluginContainer != nil
+//@   requires @C03 sentinelsIntact()
 //@   ensures[reader-ends-in-disconnect] ghost.disconnectRuns == old(ghost.disconnectRuns) + 1
 //@   ensures[reader-ends-in-disconnect-after-panic]! ghost.disconnectRuns == old(ghost.disconnectRuns) + 1
+//@   loop 0: invariant[every-accepted-frame-dispatched] @C03 ghost.framesRead - old(ghost.framesRead) == (ghost.handleScheduled - old(ghost.handleScheduled)) + (ghost.handleRuns - old(ghost.handleRuns))
 
 // ---- logging: output only (keeps verification conditions small) ------------------
 //@ trusted Printf
